@@ -84,6 +84,23 @@ fn special(kind: u64, rng: &mut Rng) -> Option<DirSpec> {
             }
             Some(mk(vec![("p0", PDef::Array { fixed: 1, store: 0 }), ("p1", PDef::Array { fixed: 0, store: 0 })], vec![], vec![rng.chance(1, 2)], entries, "shared-store"))
         }
+        // a value store with far more values than any per-block search window, values met again late:
+        // the id an entry gets for a repeated value must be the id of that value, wherever it sits
+        6 => {
+            let indexed = rng.chance(3, 4);
+            let distinct = 1100 + rng.below(900) as usize;
+            let mut entries = vec![];
+            for i in 0..distinct as u64 {
+                entries.push(EntrySpec { variant: None, values: vec![("p0", V::A(format!("value-number-{:06}", i).into_bytes())), ("p1", V::U(i))] });
+            }
+            for k in 0..300u64 {
+                // mostly values first added after the 1024th, a few early ones
+                let i = if k % 5 == 0 { rng.below(1024) } else { 1024 + rng.below(distinct as u64 - 1024) };
+                entries.push(EntrySpec { variant: None, values: vec![("p0", V::A(format!("value-number-{:06}", i).into_bytes())), ("p1", V::U(100000 + k))] });
+            }
+            let fixed = *rng.pick(&[0usize, 3, 8]);
+            Some(mk(vec![("p0", PDef::Array { fixed, store: 0 }), ("p1", PDef::UInt)], vec![], vec![indexed], entries, "many-values-repeated"))
+        }
         _ => None,
     }
 }
@@ -146,10 +163,10 @@ pub fn run(ctx: &mut Ctx) {
         if !ctx.wants(case) {
             continue;
         }
-        let spec = if case < 24 {
-            special(case % 6, &mut crng)
+        let spec = if case < 28 {
+            special(case % 7, &mut crng)
         } else if case % 40 == 0 {
-            special(crng.below(6), &mut crng)
+            special(crng.below(7), &mut crng)
         } else {
             None
         };
